@@ -63,6 +63,10 @@ theorem C18_serial_patterns :
        | _, _ => false) = true)
   ∧ Gen.asset_anchor_pre = Gen.parse_anchor_pre ∧ Gen.asset_anchor_post = Gen.parse_anchor_post := by decide +kernel
 
+/-- both engines render with the same single left-to-right tokeniser -/
+theorem C18_format_tokeniser :
+    Gen.asset_format_token_re = Gen.format_token_re ∧ Gen.asset_format_single_pass = true ∧ Gen.format_single_pass = true := by decide
+
 def sameCompiled (fmt : String) : Bool :=
   match (do let t ← Assets.regexTable Gen.asset_serial_rows; genFormat t fmt.toList [] []),
         (do let t ← Engine.regexTable Gen.serial_formatter; genFormat t fmt.toList [] []) with
